@@ -30,6 +30,7 @@ func scenarios(tier string) []sched.Scenario {
 	mk := func() []oxc.Oracle { return []oxc.Oracle{&oxc.LinOracle{}} }
 	specs := []oxc.ScenarioSpec{
 		{Name: "failed-become-leader", Fault: "failed-become-leader", Clients: 0, PerCli: 0, SyncData: true},
+		{Name: "lost-newterm-response", Fault: "lost-newterm-response", Clients: 2, PerCli: 2, SyncData: true, Reads: true, SameKeys: true},
 		{Name: "rolling-isolation", Fault: "rolling-isolation", Clients: 0, PerCli: 0, SyncData: true},
 		{Name: "leader-crash", Fault: "leader-crash", Clients: 2, PerCli: 2, SyncData: true, Reads: true, SameKeys: true},
 		{Name: "spurious-failover", Fault: "spurious-failover", Clients: 2, PerCli: 2, SyncData: true, Reads: true, SameKeys: true},
